@@ -438,6 +438,10 @@ class Model:
         for i in list(w.reg):
             if w.reg[i]() is None:
                 del w.reg[i]
+        for key, obj in list(NODE_REGISTRY.items()):
+            if obj.id != key:
+                errs.append(("registry-key", f"the registry holds a node with id {obj.id} under the key {key}"))
+                break
         live_ids = [o.id for o in (wr() for wr in w.reg.values()) if o is not None]
         if len(set(live_ids)) != len(live_ids):
             errs.append(("duplicate-ids", "two registered nodes share an id"))
@@ -632,6 +636,79 @@ def deep_detach(rec: Rec, dsize: int):
     NODE_REGISTRY.clear()
 
 
+def _colliding_across(dsize):
+    """(value for RL, value for RS) whose ids collide at this digest size, or None (searched on the running implementation)."""
+    config.ID_DIGEST_SIZE = dsize
+    seen = {}
+    for v in range(600):
+        NODE_REGISTRY.clear()
+        seen.setdefault(RL(v).id, v)
+    for w in range(600):
+        NODE_REGISTRY.clear()
+        i = RS(w).id
+        if i in seen:
+            NODE_REGISTRY.clear()
+            return seen[i], w
+    NODE_REGISTRY.clear()
+    return None
+
+
+def stale_documents(rec: Rec, dsize: int):
+    """A document is written, its node goes away, ANOTHER node takes over the id (a twin of the same class, other content with a
+    colliding digest, a node of another class with a colliding digest - the last two exist for small digests only), and then
+    the document is loaded.  What the load returns in that situation is not specified; the registry invariants are: the node
+    that holds the id stays registered as itself, ids of registered live nodes are unique, lookup returns registered nodes."""
+    config.ID_DIGEST_SIZE = dsize
+    pair = colliding_values(dsize)
+    across = _colliding_across(dsize) if dsize <= 2 else None
+    takers = [("twin", lambda: RL(1))]
+    if dsize <= 2 and pair[0] != pair[1]:
+        takers.append(("other-content", None))
+    if across is not None:
+        takers.append(("other-class", None))
+    for tname, _ in takers:
+        for gone in ("dropped", "detached", "replaced"):
+            for fmt in ("dict", "json"):
+                NODE_REGISTRY.clear()
+                rec.count("transitions"); rec.count("traces"); rec.count("evaluations"); rec.count("states")
+                case = {"digest": dsize, "scenario": "stale-document", "taker": tname, "original": gone, "format": fmt}
+                if tname == "twin":
+                    x, mk = RL(1), (lambda: RL(1))
+                elif tname == "other-content":
+                    x, mk = RL(pair[0]), (lambda: RL(pair[1]))
+                else:
+                    x, mk = RS(across[1]), (lambda: RL(across[0]))
+                xid = x.id
+                doc = x.as_dict() if fmt == "dict" else x.to_json()
+                keep = [x] if gone != "dropped" else []
+                if gone == "detached":
+                    x.detach()
+                elif gone == "replaced":
+                    keep.append(x.replace(v=x.v + 1000))
+                del x
+                gc.collect()
+                y = mk()
+                if y.id != xid:
+                    rec.outcome("stale-document:id-not-taken")
+                    continue
+                try:
+                    z = ASTNode.as_obj(doc) if fmt == "dict" else ASTNode.from_json(doc)
+                except Exception as e:  # noqa: BLE001
+                    z = None
+                    rec.outcome(f"stale-document:load-raises:{type(e).__name__}")
+                if ASTNode.get_any(y.id) is not y:
+                    rec.violation("C03|stale-document|lookup", case, "loading a stale document took the registry entry of the live node that holds the id")
+                live = [n for n in [y, z] + keep if n is not None and NODE_REGISTRY.get(n.id) is n]
+                ids = [n.id for n in {id(n): n for n in live}.values()]
+                if len(set(ids)) != len(ids):
+                    rec.violation("C03|stale-document|duplicate-ids", case, "two registered live nodes share an id after the load")
+                if z is not None and z is not y and ASTNode.get_any(z.id) is not z:
+                    rec.violation("C03|stale-document|result-not-registered", case, "the node the load returned is not the one registered under its id")
+                rec.outcome(f"stale-document:{tname}")
+                del y, z, keep
+    NODE_REGISTRY.clear()
+
+
 def plan(tier, seed):
     cfgs = []
     for ds in DIGESTS[tier]:
@@ -647,6 +724,7 @@ def run_shard(cfg):
     same_id_pairs(rec, cfg["digest"])
     if cfg["digest"] >= 8:
         deep_detach(rec, cfg["digest"])
+    stale_documents(rec, cfg["digest"])
     rec.bound["digest_sizes"] = sorted(set(rec.bound.get("digest_sizes", [])) | {cfg["digest"]})
     rec.extra["colliding_values"] = {str(cfg["digest"]): list(m.vals)}
     return rec.result()
@@ -654,6 +732,9 @@ def run_shard(cfg):
 
 def replay(case, cfg):
     rec = Rec(cfg)
+    if case.get("scenario") == "stale-document":
+        stale_documents(rec, int(case["digest"]))
+        return rec.result()["violations"]
     if case.get("scenario") == "deep-chain":
         deep_detach(rec, int(case["digest"]))
         return rec.result()["violations"]
